@@ -566,10 +566,11 @@ def _scan_models(ctx):
             ("*.find", lambda px, t, a, k, fr: Outcomes(OK(Sym("flagpos")), OK(-1))),
             ("self._unstuff_bytes", Outcomes(OK(Sym("unstuffed")), RAISE("ParsingError"))),
             ("parse_frame", Outcomes(OK(Sym("frame")), RAISE("ParsingError"), RAISE("IndexError"), RAISE("AssertionError"))),
+            ("self.frame_received", Outcomes(OK(None), RAISE("UpperLayerError"))),
             ("self._write_frame", Outcomes(OK(None), RAISE("NcpFailure")))], rwe
 
 
-@rule("R02.2", ["C02"], "T-FUN", floor=20)
+@rule("R02.2", ["C02", "C04"], "T-FUN", floor=20)
 def r02_2(ctx):
     """One scanner iteration, per first reserved byte, over an abstract buffer B = A ++ r ++ rest (i = len(A)):
     FLAG -> frame A is unstuffed then parsed then delivered, rest kept, empty A ignored; any unstuff/parse failure
@@ -615,6 +616,17 @@ def r02_2(ctx):
             bad = None
             cur = "B"
             scen = f"discarding={disc}"
+            upper_raised = any(str(e.extra) == "raises UpperLayerError" for e in dlv)
+            if upper_raised:
+                # the upper layer failed while a correctly parsed frame was being delivered: whatever happens to that exception, the
+                # frame was valid, so no parse-failure NAK may follow (one DATA frame, one answer)
+                scen = f"discarding={disc},upper-layer-raises"
+                if wr:
+                    ctx.violation("scan:upper-layer-raises", f"{scen}: a CANCEL+NAK is written for a frame that parsed correctly because its delivery raised: "
+                                  "the frame then gets two answers", func=f, trace=p.trace(30))
+                else:
+                    ctx.ok(1, scen)
+                continue
             if p.terminal == "raise":
                 bad = f"raises {p.value!r} out of the receive callback"
             elif assumed.get("B") is False:
